@@ -73,14 +73,35 @@ def suite_for(seed, k=0):
 
 
 # ----------------------------------------------------------------- console properties
+def confirmed_realtime(work, make, name):
+    """Families that depend on wall-clock time (lost replies that really block): a violation only counts when it
+    reproduces in three independent runs, so that a stalled goroutine on a loaded machine cannot raise an alarm."""
+    runs = [make(name)]
+    sigs = [{(x["prop"], x["pred"]) for x in flatten(runs[0])}]
+    while sigs[-1] and len(runs) < 3:
+        runs.append(make("%s-again%d" % (name, len(runs))))
+        sigs.append({(x["prop"], x["pred"]) for x in flatten(runs[-1])})
+    keep = set.intersection(*sigs) if len(runs) == 3 else set()
+    last = runs[-1]
+    last["viols"] = [v for v in last["viols"] if any((sg["prop"], sg["pred"]) in keep for sg in v["sigs"])] if keep else []
+    for v in last["viols"]:
+        v["sigs"] = [sg for sg in v["sigs"] if (sg["prop"], sg["pred"]) in keep]
+    return last
+
+
 def console_check(pid, tier, seed, work, mc_cfgs, fam_specs, level_note, hs_fams=()):
     t0 = time.time()
     mcs = []
     for module, cfg in mc_cfgs:
         mcs.append(F.model_check(module, cfg, work))
+    def hs(fs):
+        if (fs.get("opts") or {}).get("blockOnLost"):
+            kw = {k: v for k, v in fs.items() if k != "name"}
+            return confirmed_realtime(work, lambda nm: F.handshake_family(work, name=nm, **kw), fs["name"])
+        return F.handshake_family(work, **fs)
     with cf.ThreadPoolExecutor(max_workers=3) as ex:
         fams = list(ex.map(lambda fs: F.console_family(work, **fs), fam_specs))
-        fams += list(ex.map(lambda fs: F.handshake_family(work, **fs), hs_fams))
+        fams += list(ex.map(hs, hs_fams))
     require_accepted(fams)
     viols = []
     for f in fams:
@@ -142,7 +163,7 @@ def c10(tier, seed, work):
         mc = [("MCConsole", "MC_Console_sess.cfg"), ("MCConsole", "MC_Console_nosess.cfg")]
     return console_check("C10", tier, seed, work, mc, fams, COMMON_ASSUME,
                          hs_fams=[dict(name="c10-hs-retry", family="retry", tier=tier, seed=seed),
-                                  dict(name="c10-hs-retry-rt", family="retry", tier=tier, seed=seed + 1, opts={"blockOnLost": True, "timeoutMs": 40})])
+                                  dict(name="c10-hs-retry-rt", family="retry", tier=tier, seed=seed + 1, opts={"blockOnLost": True, "timeoutMs": 120})])
 
 
 def c11(tier, seed, work):
